@@ -91,21 +91,29 @@ def run(tier, seed):
     rep = common.Report(PROP, tier, seed, LEVEL)
     p = base.tier_params(tier)
     sums = {}
-    for fl in base.flavours_for(tier, seed):
+    for fl, reduced in base.flavours_for(tier, seed, (0, 1, 2, 3, 5, 6)):
         for cls in ('DynGraph', 'DynDiGraph'):
             for removal in (True, False):
                 conf = U.conf_make(cls, removal, fl, p['w'])
                 seen = set()
-                plans = [('U0', U.alphabet_U0(conf), 8, ()),
-                         ('U1', U.alphabet_U1(conf), p['u1_depth'], ()),
-                         ('U2', U.alphabet_U2(conf), p['u2_depth'], ()),
-                         ('TWO', U.alphabet_two_pairs(conf), p['two_depth'], ()),
-                         ('U3', U.alphabet_U2(conf), p['u3_depth'], U.seeds_U3(conf))]
-                for name, alpha, depth, seeds in plans:
+                lconf = dict(conf, w=11)
+                plans = [('U0', conf, U.alphabet_U0(conf), 8, ()),
+                         ('U1', conf, U.alphabet_U1(conf), p['u1_depth'], ()),
+                         ('U2', conf, U.alphabet_U2(conf), p['u2_depth'], ()),
+                         ('TWO', conf, U.alphabet_two_pairs(conf), p['two_depth'], ()),
+                         ('U3', conf, U.alphabet_U2(conf), p['u3_depth'], U.seeds_U3(conf)),
+                         ('LONG', lconf, U.alphabet_LONG(lconf), 4 if tier == 'quick' else 5, ()),
+                         ('UC', conf, U.alphabet_UC(conf), 4 if tier == 'quick' else 5, ())]
+                if reduced:
+                    plans = [('U0', conf, U.alphabet_U0(conf), 8, ()), ('U2', conf, U.alphabet_U2(conf), 1, ()),
+                             ('TWO', conf, U.alphabet_two_pairs(conf), 2, ()), ('UC', conf, U.alphabet_UC(conf), 3, ())]
+                for name, pconf, alpha, depth, seeds in plans:
                     spec = Spec()
                     spec.alphabet = list(alpha)
-                    r = engine.bfs(spec, conf, alpha, depth, seeds=seeds, seen=seen)
-                    rep.cov['per_universe'].append({'universe': name, 'conf': U.conf_name(conf), 'alphabet': len(alpha),
+                    if pconf is not conf:
+                        seen = set()
+                    r = engine.bfs(spec, pconf, alpha, depth, seeds=seeds, seen=seen)
+                    rep.cov['per_universe'].append({'universe': name, 'conf': U.conf_name(pconf), 'alphabet': len(alpha),
                                                     'depth': depth, 'states': r.states, 'transitions': r.transitions,
                                                     'outcomes': dict(r.outcomes), 'state_space_closed': r.closed})
                     rep.cov['states'] += r.states
